@@ -381,6 +381,17 @@ def run_check(cid, tier, seed):
         assumptions=sorted(assumptions), wall_s=round(time.time() - t_start, 2), violations=violations)
     if tier == 'thorough':
         ev['coverage']['cross_checked'] = sum(1 for o in obs if getattr(o, 'cross', None))
+    ev['coverage']['dependencies'] = {k: v for k, v in deps.items()}
+    xc = os.path.join(ROOT, 'out', 'xcheck.json')
+    if os.path.exists(xc):
+        try:
+            x = json.load(open(xc))
+            ev['coverage']['engine_cross_check'] = dict(
+                source='./check selftest (pyvc/xcheck.py): engine paths vs CPython on sampled inputs',
+                functions=x.get('functions'), inputs=x.get('inputs'), agreed=x.get('agreed'),
+                mismatches=len(x.get('mismatches', [])), outside_subset=len(x.get('skipped', [])))
+        except Exception:
+            pass
     os.makedirs(os.path.join(OUTROOT, 'evidence'), exist_ok=True)
     json.dump(ev, open(os.path.join(OUTROOT, 'evidence', f'{cid}.json'), 'w'), indent=1, default=str)
     for l in kf_lines:
